@@ -39,6 +39,11 @@ pub struct Case {
     /// the -o / -p target paths already exist (with longer, unrelated content) before the tool runs
     #[serde(default)]
     pub preexisting_files: bool,
+    /// boundary-directed: move the longitude (by at most 0.3 deg, bisected to adjacent f64 values with the library) to
+    /// where the first day's rounded Dhuhr flips from one minute to the next, so that any loss of precision between
+    /// the command line, the saved parameter file and the reloaded run changes the output
+    #[serde(default)]
+    pub boundary_lon: bool,
 }
 
 static COUNTER: AtomicU64 = AtomicU64::new(0);
@@ -199,8 +204,47 @@ fn cmdline(args: &[String]) -> String {
     args.join(" ")
 }
 
-fn check_case(c: &Case, st: &mut Stats, dir: &Path) -> Result<(), Failure> {
+/// longitude next to c.site.lon at which the start date's Dhuhr (default rounding of Params::new) changes its minute
+fn boundary_longitude(c: &Case) -> Option<f64> {
+    let params = Params::new(METHODS[c.method as usize]);
+    let f = |lon: f64| -> Option<i64> {
+        let mut s = c.site;
+        s.lon = F(lon);
+        if !c.pass_elevation {
+            s.elev = F(0.0);
+        }
+        let t = islamic_prayer_times::prayer_times_dt(&params, s.location(), c.start, None);
+        t[&islamic_prayer_times::Prayer::Dhuhr].ok().map(|pt| gen::secs(pt.time))
+    };
+    let (mut lo, mut hi) = ((c.site.lon.0 - 0.3).max(-180.0), (c.site.lon.0 + 0.3).min(180.0));
+    let (a, b) = (f(lo)?, f(hi)?);
+    if a == b {
+        return None;
+    }
+    for _ in 0..80 {
+        let mid = 0.5 * (lo + hi);
+        if mid <= lo || mid >= hi {
+            break;
+        }
+        if f(mid)? == a {
+            lo = mid;
+        } else {
+            hi = mid;
+        }
+    }
+    Some(if c.len % 2 == 0 { lo } else { hi })
+}
+
+fn check_case(c0: &Case, st: &mut Stats, dir: &Path) -> Result<(), Failure> {
     st.eval();
+    let mut cc = c0.clone();
+    if c0.boundary_lon && c0.invalid.is_none() {
+        if let Some(l) = boundary_longitude(c0) {
+            cc.site.lon = F(l);
+            st.class("longitude_at_a_rounding_boundary_of_dhuhr");
+        }
+    }
+    let c = &cc;
     let out_a = dir.join("outA.json");
     let params_p = dir.join("params.json");
     let out_b = dir.join("outB.json");
@@ -409,13 +453,13 @@ impl Prop for C19 {
                 .prop_map(move |text| Some(Invalid::ParamFile { which: w, text }))
             }),
         ];
-        (0u8..9, site, any::<bool>(), gen::date(), len, any::<bool>(), any::<bool>(), invalid, any::<bool>())
-            .prop_map(|(method, site, pass_elevation, start, len, out_file, params_file, invalid, preexisting_files)| {
+        (0u8..9, site, any::<bool>(), gen::date(), len, any::<bool>(), any::<bool>(), invalid, any::<bool>(), prop_oneof![4 => Just(false), 1 => Just(true)])
+            .prop_map(|(method, site, pass_elevation, start, len, out_file, params_file, invalid, preexisting_files, boundary_lon)| {
                 let start = start.min(gen::date_hi() - chrono::Duration::days(400));
                 // the default nearest-good-day policy costs up to ~40 ms per day beyond the polar circles: keep
                 // long ranges to moderate latitudes (both dimensions are still covered, not their product)
                 let len = if site.lat.0.abs() > 64.0 { len.min(4) } else if site.lat.0.abs() > 50.0 { len.min(30) } else { len };
-                Case { method, site, pass_elevation, start, len, out_file, params_file, invalid, preexisting_files }
+                Case { method, site, pass_elevation, start, len, out_file, params_file, invalid, preexisting_files, boundary_lon }
             })
             .boxed()
     }
